@@ -379,3 +379,16 @@ Proof.
   cbn [fst snd] in *. exists recs, (stats_of am), (lenN (s_registry (s_tick s1))).
   split; [reflexivity|split; [exact Hsup|exact Hgone]].
 Qed.
+
+(* ================================================================ a reporter installed again *)
+(* set_reporter replaces the collector: the new one knows no trace and has drained nothing;
+   threads, their rings, their spans and the registry of rings are untouched *)
+Theorem reinstall_starts_afresh s cb :
+  s_pc s = PIdle ->
+  let s' := fst (step s (AInstall cb)) in
+  s_active s' = [] /\ s_batch s' = batch_empty /\ s_cancelable s' = cb /\ s_installed s' = true /\
+  s_pc s' = PIdle /\ s_registry s' = s_registry s /\ s_threads s' = s_threads s /\ s_spans s' = s_spans s.
+Proof.
+  intros H. unfold step. cbv beta iota zeta. change (s_pc (s_tick s)) with (s_pc s). rewrite H.
+  cbn [fst]. repeat split.
+Qed.
